@@ -39,6 +39,16 @@ Definition dispatch (andf : sdd -> sdd -> res sdd) (a b : sdd) : res sdd :=
     else and_indep t a b l
   end.
 
+Lemma and_body_unfold_pre andf x y :
+  s_is_true x = false -> s_is_true y = false -> s_is_false x = false -> s_is_false y = false ->
+  sdd_eqb x y = false -> sdd_eqb x (sneg y) = false ->
+  and_body t cm cache andf x y =
+  if Nat.eqb (vidx t x) (vidx t y) || is_prime_index (vidx t x) (vidx t y) then dispatch andf x y else dispatch andf y x.
+Proof.
+  intros H1 H2 H3 H4 H5 H6. unfold and_body. rewrite H1, H2, H3, H4, H5, H6.
+  destruct (Nat.eqb (vidx t x) (vidx t y) || is_prime_index (vidx t x) (vidx t y)); reflexivity.
+Qed.
+
 Section AtNode.
 Variables l r : vtree.
 Variable off : nat.
@@ -90,6 +100,77 @@ Proof.
     destruct (Nat.eqb_spec m (vidx t a)); [lia|].
     destruct (Nat.eqb_spec m (vidx t b)); [lia|].
     eapply and_indep_spec; eauto.
+Qed.
+
+(* which apply case the dispatch takes, from the positions of the operands *)
+Definition loc_l (a : sdd) : Prop := at_node l r off a \/ (under l off a /\ s_is_const a = false).
+Definition loc_r (b : sdd) : Prop := at_node l r off b \/ (under r (S m) b /\ s_is_const b = false).
+
+Lemma dispatch_cases a b : loc_l a -> loc_r b -> cache a b = None ->
+  (at_node l r off a /\ at_node l r off b /\ dispatch andf a b = and_cartesian t cm andf a b m) \/
+  (at_node l r off a /\ under r (S m) b /\ s_is_const b = false /\ dispatch andf a b = and_sub_desc cm andf a b) \/
+  (under l off a /\ s_is_const a = false /\ at_node l r off b /\ dispatch andf a b = and_prime_desc t cm andf b a) \/
+  (under l off a /\ s_is_const a = false /\ under r (S m) b /\ s_is_const b = false /\
+   dispatch andf a b = and_indep t a b m).
+Proof.
+  intros Ha Hb Ec. unfold dispatch. rewrite Ec.
+  pose proof (vsize_pos l) as Pl. pose proof (vsize_pos r) as Pr.
+  destruct Ha as [Ha|[Ha NCa]]; destruct Hb as [Hb|[Hb NCb]].
+  - left. repeat split; auto. rewrite (idx_m a Ha), (idx_m b Hb), Nat.eqb_refl.
+    rewrite lca_m; simpl; try lia. reflexivity.
+  - right; left. repeat split; auto.
+    pose proof (idx_r b Hb NCb) as Rb. rewrite (idx_m a Ha).
+    destruct (Nat.eqb_spec m (vidx t b)); [lia|].
+    rewrite lca_m; simpl; try lia. rewrite Nat.eqb_refl. reflexivity.
+  - right; right; left. repeat split; auto.
+    pose proof (idx_l a Ha NCa) as Ra. rewrite (idx_m b Hb).
+    destruct (Nat.eqb_spec (vidx t a) m); [lia|].
+    rewrite lca_m; simpl; try lia.
+    destruct (Nat.eqb_spec m (vidx t a)); [lia|]. rewrite Nat.eqb_refl. reflexivity.
+  - right; right; right. repeat split; auto.
+    pose proof (idx_l a Ha NCa) as Ra. pose proof (idx_r b Hb NCb) as Rb.
+    destruct (Nat.eqb_spec (vidx t a) (vidx t b)); [lia|].
+    rewrite lca_m; simpl; try lia.
+    destruct (Nat.eqb_spec m (vidx t a)); [lia|].
+    destruct (Nat.eqb_spec m (vidx t b)); [lia|]. reflexivity.
+Qed.
+
+(* which operands reach the dispatch, and in which order *)
+Lemma and_body_locate x y :
+  s_is_true x = false -> s_is_true y = false -> s_is_false x = false -> s_is_false y = false ->
+  sdd_eqb x y = false -> sdd_eqb x (sneg y) = false ->
+  under (VNode l r) off x -> under (VNode l r) off y ->
+  (under l off x /\ under l off y) \/ (under r (S m) x /\ under r (S m) y) \/
+  exists a b, ((a = x /\ b = y) \/ (a = y /\ b = x)) /\
+              and_body t cm cache andf x y = dispatch andf a b /\ loc_l a /\ loc_r b.
+Proof.
+  intros T1 T2 F1 F2 E1 E2 Ux Uy.
+  rewrite (and_body_unfold_pre andf x y T1 T2 F1 F2 E1 E2).
+  assert (NCx : s_is_const x = false) by (destruct x; simpl in *; congruence).
+  assert (NCy : s_is_const y = false) by (destruct y; simpl in *; congruence).
+  pose proof (vsize_pos l) as Pl. pose proof (vsize_pos r) as Pr.
+  unfold loc_l, loc_r.
+  destruct (under_node_inv _ _ _ _ Ux NCx) as [Ax|[Lx|Rx]];
+  destruct (under_node_inv _ _ _ _ Uy NCy) as [Ay|[Ly|Ry]]; auto.
+  - right; right. exists x, y. rewrite (idx_m x Ax), (idx_m y Ay), Nat.eqb_refl. simpl. auto 10.
+  - right; right. exists y, x. pose proof (idx_l y Ly NCy) as Ry'. rewrite (idx_m x Ax).
+    destruct (Nat.eqb_spec m (vidx t y)); [lia|].
+    unfold is_prime_index. destruct (Nat.ltb_spec m (vidx t y)); [lia|]. simpl. auto 10.
+  - right; right. exists x, y. pose proof (idx_r y Ry NCy) as Ry'. rewrite (idx_m x Ax).
+    destruct (Nat.eqb_spec m (vidx t y)); [lia|].
+    unfold is_prime_index. destruct (Nat.ltb_spec m (vidx t y)); [|lia]. simpl. auto 10.
+  - right; right. exists x, y. pose proof (idx_l x Lx NCx) as Rx'. rewrite (idx_m y Ay).
+    destruct (Nat.eqb_spec (vidx t x) m); [lia|].
+    unfold is_prime_index. destruct (Nat.ltb_spec (vidx t x) m); [|lia]. simpl. auto 10.
+  - right; right. exists x, y. pose proof (idx_l x Lx NCx) as Rx'. pose proof (idx_r y Ry NCy) as Ry'.
+    destruct (Nat.eqb_spec (vidx t x) (vidx t y)); [lia|].
+    unfold is_prime_index. destruct (Nat.ltb_spec (vidx t x) (vidx t y)); [|lia]. simpl. auto 10.
+  - right; right. exists y, x. pose proof (idx_r x Rx NCx) as Rx'. rewrite (idx_m y Ay).
+    destruct (Nat.eqb_spec (vidx t x) m); [lia|].
+    unfold is_prime_index. destruct (Nat.ltb_spec (vidx t x) m); [lia|]. simpl. auto 10.
+  - right; right. exists y, x. pose proof (idx_r x Rx NCx) as Rx'. pose proof (idx_l y Ly NCy) as Ry'.
+    destruct (Nat.eqb_spec (vidx t x) (vidx t y)); [lia|].
+    unfold is_prime_index. destruct (Nat.ltb_spec (vidx t x) (vidx t y)); [lia|]. simpl. auto 10.
 Qed.
 End AtNode.
 
